@@ -72,7 +72,7 @@ def main(tier, seed):
     drv = driver("drv_exp")
     wdir = os.path.join(bdir, "verif-work", "c04-%d" % os.getpid())
     os.makedirs(wdir, exist_ok=True)
-    nsch = 12 if tier == "quick" else 1000
+    nsch = 30 if tier == "quick" else 1000
     evals = 0
     oracle_fail = 0
     disagreements = 0
